@@ -74,6 +74,10 @@ def run(tier, seed):
             cases.append(('DURATION', L, rnd.choice(dur_spellings(rnd, L))))
         else:
             cases.append(('DTEND', L, None))
+    # every spelling at least once, week forms included (a limit of weeks cannot be waited for, it is followed along the path)
+    for L in (60, 3600, 86400, 90061, 604800, 1209600, 52 * 604800):
+        for text in dur_spellings(rnd, L) + (['+P%dW' % (L // 604800)] if L % 604800 == 0 else []):
+            cases.append(('DURATION', L, text))
     sp = f'{wd}/spool'; xd = f'{wd}/x'; os.makedirs(sp, exist_ok=True); os.makedirs(xd, exist_ok=True)
     def one(c):
         kind, L, text = c
